@@ -1,2 +1,3 @@
 pub mod jsonpda;
 pub mod jsonval;
+pub mod jqeval;
